@@ -83,7 +83,11 @@ def gen_program(rng):
                 # numeric variant first, register variant second: the letter case of the register must not decide
                 toks = ['ldv', reg() if rng.random() < 0.7 else val()]
             elif mn == 'ldx':
-                toks = ['ldx', '[', reg(), ']'] if rng.random() < 0.5 else ['ldx', '[', reg(), '+', str(rng.randint(0, 9)), ']']
+                toks = ['ldx', '[', reg(), ']'] if rng.random() < 0.4 else ['ldx', '[', reg(), '+', str(rng.randint(0, 9)), ']']
+                if rng.random() < 0.35:
+                    # an offset of several terms: the blanks between its terms carry no meaning either
+                    toks = ['ldx', '[', reg(), rng.choice(['+', '-']), rng.choice([str(rng.randint(0, 9)), 'kone']),
+                            rng.choice(['+', '-']), str(rng.randint(0, 5)), ']']
             else:
                 toks = ['mv', reg(), ',', reg()]
             stmts.append(('ins', toks))
